@@ -56,7 +56,7 @@ ASSUMPTIONS = [
     "the nonlinear solvers (neqs Levenberg, scipy root/lm incl. its success flag) and numpy lstsq are unmodelled; their outputs are validated per run (exit test, exact residuals)",
     "log-variables are modelled multiplicatively (level*change^shift); agreement with exp(log level + shift*log change) is a theorem over the reals, floating-point exp/log is compared with tolerance",
     "the order of the unknowns inside the evaluator's guess vector (CPython set order) is not modelled: the model uses increasing qid and the harness permutes the implementation's final guess accordingly; the *sets* of level/change unknowns are compared exactly",
-    "generated models possess a steady state by construction (stationary, unit root with drift, balanced growth); the every-date oracle is only meaningful for such models",
+    "generated models possess a steady state by construction (stationary blocks are strictly diagonally dominant for every variant, unit root with drift, balanced growth); the every-date oracle is only meaningful for such models -- for a singular parameterisation the linear algorithm (least squares) completes without error on a model that has no steady state, which is outside the property's quantifier",
 ]
 
 TOL_ORACLE = 1e-8          # relative to 1 + max |term|; solver tolerance is 1e-12, a wrong rule moves residuals by >= 1e-3
@@ -211,15 +211,24 @@ def mod_ar(G: Builder, rng: Rng, n: int, rich: bool):
         e = G.fresh("e")
         G.shocks.append(e)
         rhs = add(mul(T(rho), T(x, -1)), mul(sub(N(1), T(rho)), T(a)))
+        # the module must possess a steady state for every variant: keep the absolute row sum of the coefficients on the
+        # module's own variables below 0.9 (strict diagonal dominance of I - M: non-singular, stationary); a term that
+        # would exceed the budget is dropped (the random draws are made regardless, so the stream stays aligned)
+        budget = [0.9 - max(G.params[rho])]
+        def within(coef, tok):
+            nonlocal rhs
+            if abs(coef) <= budget[0]:
+                budget[0] -= abs(coef)
+                rhs = add(rhs, mul(N(coef), tok))
         for j, y in enumerate(xs):
             if j != i and rng.chance(0.5):
-                rhs = add(rhs, mul(N(rng.choice([0.125, -0.125, 0.0625])), T(y, -1)))
+                within(rng.choice([0.125, -0.125, 0.0625]), T(y, -1))
             if j < i and rng.chance(0.4):
-                rhs = add(rhs, mul(N(rng.choice([0.25, -0.25, 0.125])), T(y, 0)))
+                within(rng.choice([0.25, -0.25, 0.125]), T(y, 0))
         if rich and rng.chance(0.4):
-            rhs = add(rhs, mul(N(0.0625), T(x, -2)))
+            within(0.0625, T(x, -2))
         if rich and rng.chance(0.3) and n > 1:
-            rhs = add(rhs, mul(N(0.0625), T(rng.choice(xs), 1)))
+            within(0.0625, T(rng.choice(xs), 1))
         if G.stationary and rng.chance(0.4):
             rhs = add(rhs, mul(N(rng.choice([0.25, -0.125])), T(rng.choice(G.stationary), rng.choice([0, -1]))))
         rhs = add(rhs, T(e))
@@ -1170,6 +1179,24 @@ def gen_session(seed: int) -> dict:
     steps = []
     params = [p for p in case["params"] if p[0] in "adg" and not p.startswith("aux") and not p.startswith("al")]
     nsolve = 0
+    if rng.chance(0.45) and params:
+        # the dense form of the class: a rough pass under a loose tolerance (set on the model, or passed once through
+        # solver_settings), back to the default, a re-assignment that moves the steady state, and a proper solve with the
+        # same iterative solver -- optionally twice
+        solver = rng.choice(list(SOLVERS))
+        def it_solve(user_tol=None):
+            st = gen_solve_step(rng, case, False, create_linear)
+            st.update({"linear_in_force": False, "solver": solver, "user_tol": user_tol})
+            return st
+        for _ in range(rng.randint(1, 2)):
+            loose = rng.choice(LOOSE[:2])
+            if rng.chance(0.5):
+                steps += [{"op": "override_tolerance", "equality": loose}, it_solve(), {"op": "reset_tolerance"}]
+            else:
+                steps += [it_solve(user_tol=loose)]
+            steps.append({"op": "assign", "name": rng.choice(params), "factor": rng.choice([1.25, 0.75, 1.5]), "shift": rng.choice([0.25, -0.125, 0.5])})
+            steps.append(it_solve())
+        return {"sess_seed": seed, "case": case, "create_linear": create_linear, "create_flat": create_flat, "steps": steps}
     for _ in range(rng.randint(3, 7)):
         op = rng.weighted([("solve", 5), ("override", 2), ("reset", 2), ("assign", 3)])
         if op == "override":
@@ -1198,7 +1225,7 @@ def gen_solve_step(rng: Rng, case, s_linear, create_linear) -> dict:
 
 
 def session_for_json(sess, upto=None):
-    return {"sess_seed": sess["sess_seed"], "source": sess["case"]["source"], "create_linear": sess["create_linear"],
+    return {"sess_seed": sess["sess_seed"], "history": list(sess.get("history", [])), "source": sess["case"]["source"], "create_linear": sess["create_linear"],
             "create_flat": sess["create_flat"], "structure": {"linear": sess["case"]["linear"], "flat": sess["case"]["flat"]},
             "params": sess["case"]["params"], "init": sess["case"]["init"], "plan": sess["case"]["plan"],
             "steps": sess["steps"][: (upto + 1) if upto is not None else None]}
@@ -1275,10 +1302,15 @@ def run_session(ctx: Ctx, sess) -> None:
 
 
 def run_sessions(ctx: Ctx, n: int, tag="sessions"):
+    """the sessions run one after the other in this process; a failure may depend on what earlier sessions left behind in
+    the process, so the replay payload of a session carries the seeds of the sessions run before it (`history`)"""
     rng = ctx.rng.fork(tag)
+    history = []
     for _ in range(n):
         sess = gen_session(rng.next())
+        sess["history"] = list(history)
         run_session(ctx, sess)
+        history.append(sess["sess_seed"])
         if len(ctx.samples) < 8 and ctx.counts.get("sessions", 0) == 3:
             ctx.sample(session_for_json(sess))
 
@@ -1404,7 +1436,12 @@ def replay(ctx: Ctx, payload):
         return
     pending = []
     if "sess_seed" in c:
-        run_session(ctx, gen_session(c["sess_seed"]))
+        hist = []
+        for h in c.get("history", []):          # rebuild the process state the session ran in
+            sh = gen_session(h); sh["history"] = list(hist)
+            run_session(ctx, sh); hist.append(h)
+        sess = gen_session(c["sess_seed"]); sess["history"] = hist
+        run_session(ctx, sess)
         return
     if "gen_seed" in c:
         case = gen_case(Rng(c["gen_seed"]), c.get("force")); case["gen_seed"], case["force"] = c["gen_seed"], c.get("force")
